@@ -72,7 +72,7 @@ def analyze(
         remote: If True, command runs in remote context (container, ssh).
                 Skips path-based checks since paths are remote, not local.
     """
-    command = command.strip()
+    command = command.strip(" \t\n")  # what bash itself skips: a form feed or NBSP is part of the word
     if not command:
         return Decision("ask", "empty command")
 
